@@ -229,6 +229,8 @@ FNS_A = [
                  "ensures self.mmap_contents.consumer_tail.committed@ =~= old(self).mmap_contents.consumer_tail.committed@.push((tail, (tail + 1) as usize)),"
                  " self.mmap_contents.publisher_tail.tickets@ == old(self).mmap_contents.publisher_tail.tickets@.push(tail),"
                  " self.written@ == old(self).written@.insert(tail as int, setter.value@),"}, loops_optional=True),
+    fn("available_elements_count", IMPL_PUB, C_META_A, props=["C09"], kind="helper", model="A",
+       sig="pub fn available_elements_count(&self) -> (r: usize)", sig_anchor=r"fn available_elements_count\(&self\) -> usize"),
     fn("subscribe_to_separated_old_and_new_events", IMPL_INH, C_META_A, props=["C09"], model="A",
        sig="pub fn subscribe_to_separated_old_and_new_events(&mut self) -> (r: (MMapMetaFixedSubscriber, MMapMetaDynamicSubscriber))",
        sig_anchor=r"pub fn subscribe_to_separated_old_and_new_events\(self: &Arc<Self>\)",
